@@ -163,9 +163,21 @@ type case_state = {
   id : int; seed : string; mutable r : trs option; mutable univ : bytes list;
   mutable steps : int; mutable nontrivial : int; mutable withkids : int;
   mutable mism : int; mutable skipped : string option; mutable childops : bool; mutable held_refs : (int * rtree) list;
+  mutable thm : cst option; mutable thm_steps : int;  (* the combined system of the end-to-end theorem (TreeInv.cstep), stepped alongside *)
 }
 
 let cur_items : Sexp.t list ref = ref []
+
+(* every observation takes a Snapshot: the theorem's system does the same *)
+let snap_thm (c : case_state) (r2 : trs) =
+  match c.thm with
+  | Some cs ->
+      (match cstep fm0 r2.tconf cs CSnap with
+       | Some cs' when cs'.c_t = r2.ts -> c.thm <- Some cs'
+       | _ ->
+           c.thm <- None; c.mism <- c.mism + 1;
+           Printf.printf "MISMATCH case=%d seed=%s step=%d label=snap kinds=tmodel:theorem-system-differs\n" c.id c.seed c.steps)
+  | None -> ()
 
 let () =
   let files = List.tl (Array.to_list Sys.argv) in
@@ -176,8 +188,8 @@ let () =
     | Some c ->
         (match c.skipped with
          | Some why -> Printf.printf "CASE %d seed=%s SKIP %s\n" c.id c.seed why
-         | None -> Printf.printf "CASE %d seed=%s %s steps=%d nontrivial=%d withkids=%d childops=%b\n" c.id c.seed
-                     (if c.mism = 0 then "AGREE" else "DISAGREE") c.steps c.nontrivial c.withkids c.childops);
+         | None -> Printf.printf "CASE %d seed=%s %s steps=%d nontrivial=%d withkids=%d childops=%b thmsteps=%d\n" c.id c.seed
+                     (if c.mism = 0 then "AGREE" else "DISAGREE") c.steps c.nontrivial c.withkids c.childops c.thm_steps);
         cur := None in
   let check c (label : string) (o : tobs) =
     match c.r with
@@ -261,7 +273,7 @@ let () =
              cur := Some { id = int_of_sx id; seed; r = Some (trinit c);
                            univ = List.map (function Sexp.A a -> bytes_of_atom a | _ -> failwith "univ") univ;
                            steps = 0; nontrivial = 0; withkids = 0; mism = 0;
-                           skipped = (if kind = "map" then Some "map-lower-level" else None); childops = false; held_refs = [] }
+                           skipped = (if kind = "map" then Some "map-lower-level" else None); childops = false; held_refs = []; thm = Some (cinit c); thm_steps = 0 }
          | _ -> failwith "case line")
     | "init" ->
         (match !cur with
@@ -269,7 +281,7 @@ let () =
              check c "init" (obs_of_sx (List.hd (Sexp.args sx)));
              (match c.r with
               | Some r0 -> (match trstep r0 (THSnap (nat_of_int 0)) with
-                            | Some r2 -> c.r <- Some { r2 with theld = r0.theld }
+                            | Some r2 -> c.r <- Some { r2 with theld = r0.theld }; snap_thm c r2
                             | None -> ())
               | None -> ())
          | _ -> ())
@@ -304,6 +316,27 @@ let () =
                          c.id c.seed c.steps (Sexp.head lsx)
                    | Some r' ->
                        c.r <- Some r';
+                       (* the system the end-to-end theorem is about must be the system that runs here:
+                          TreeInv.cstep (instantiated with the harness operator) is stepped alongside
+                          and its collection and store must equal the runner's after every label *)
+                       (match c.thm with
+                        | None -> ()
+                        | Some cs ->
+                            let cl = (match l with
+                                | THBatch b -> Some (CBatch b) | THIngest -> Some CIngest | THSwap t -> Some (CSwap t)
+                                | THHandover -> Some CHandover | THPBegin ch -> Some (CPBegin ch)
+                                | THPBeginFail -> Some CPBeginFail | THPPublish -> Some CPPublish
+                                | THSnap _ -> Some CSnap | THNotify | THSnapClose _ -> None
+                                | THClose _ | THReopen -> c.thm <- None; None) in
+                            (match cl, c.thm with
+                             | Some cl, Some _ ->
+                                 (match cstep fm0 r.tconf cs cl with
+                                  | Some cs' when cs'.c_t = r'.ts && cs'.c_store = r'.tstore -> c.thm <- Some cs'; c.thm_steps <- c.thm_steps + 1
+                                  | _ ->
+                                      c.thm <- None; c.mism <- c.mism + 1;
+                                      Printf.printf "MISMATCH case=%d seed=%s step=%d label=%s kinds=tmodel:theorem-system-differs\n"
+                                        c.id c.seed c.steps (Sexp.head lsx))
+                             | _, _ -> ()));
                        (match l with
                         | THSnap id -> c.held_refs <- (int_of_nat id, tref_now r) :: c.held_refs
                         | THSnapClose id -> c.held_refs <- List.filter (fun (i, _) -> i <> int_of_nat id) c.held_refs
@@ -340,7 +373,7 @@ let () =
                                    c.id c.seed c.steps (ofn_sx (Some f))
                              | _ -> ());
                             (match trstep r' (THSnap (nat_of_int 0)) with
-                             | Some r2 -> c.r <- Some { r2 with theld = r'.theld }
+                             | Some r2 -> c.r <- Some { r2 with theld = r'.theld }; snap_thm c r2
                              | None -> ()))))
          | _ -> ())
     | "specviolation" ->
